@@ -119,6 +119,7 @@ type HarnessConfig struct {
 	Trace           bool
 	Merge           bool
 	BranchSolver    string
+	Tier            string
 }
 
 type HarnessResult struct {
@@ -151,6 +152,7 @@ func RunHarness(l *Loaded, fn *ssa.Function, cfg HarnessConfig) (res *HarnessRes
 	e.Verbose = cfg.Verbose
 	e.Trace = cfg.Trace
 	e.Merge = cfg.Merge
+	e.Tier = cfg.Tier
 	if cfg.Unwind > 0 {
 		e.Unwind = cfg.Unwind
 	}
